@@ -120,30 +120,35 @@ package decoration
 //@   tags C03,C09
 //@   requires ruleOK(e)
 //@   assigns new(string)
+//@   call commonTemplateLine before assert [glyphs-as-documented] arg1 == e.decor.TopLeft && arg2 == e.decor.HOuter && arg3 == e.decor.HTopDown && arg4 == e.decor.TopRight @C03
 //@   ensures [boxless-emits-no-rules] e.decor.isBoxless ==> result == "" @C03
 
 //@ func (emitter).LineHeaderBodySep
 //@   tags C03,C09
 //@   requires ruleOK(e)
 //@   assigns new(string)
+//@   call commonTemplateLine before assert [glyphs-as-documented] arg1 == e.decor.HBLeft && arg2 == e.decor.HOuter && arg3 == e.decor.HBCross && arg4 == e.decor.HBRight @C03
 //@   ensures [boxless-emits-no-rules] e.decor.isBoxless ==> result == "" @C03
 
 //@ func (emitter).LineBodyTop
 //@   tags C03,C09
 //@   requires ruleOK(e)
 //@   assigns new(string)
+//@   call commonTemplateLine before assert [glyphs-as-documented] arg1 == e.decor.TopLeft && arg2 == e.decor.HOuter && arg3 == e.decor.BTopDown && arg4 == e.decor.TopRight @C03
 //@   ensures [boxless-emits-no-rules] e.decor.isBoxless ==> result == "" @C03
 
 //@ func (emitter).LineBottom
 //@   tags C03,C09
 //@   requires ruleOK(e)
 //@   assigns new(string)
+//@   call commonTemplateLine before assert [glyphs-as-documented] arg1 == e.decor.BottomLeft && arg2 == e.decor.HOuter && arg3 == e.decor.BBottomUp && arg4 == e.decor.BottomRight @C03
 //@   ensures [boxless-emits-no-rules] e.decor.isBoxless ==> result == "" @C03
 
 //@ func (emitter).LineSeparator
 //@   tags C03,C09
 //@   requires ruleOK(e)
 //@   assigns new(string)
+//@   call commonTemplateLine before assert [glyphs-as-documented] arg1 == e.decor.LeftBodyRule && arg2 == e.decor.HRule && arg3 == e.decor.CrossPiece && arg4 == e.decor.RightBodyRule @C03
 //@   ensures [boxless-emits-no-rules] e.decor.isBoxless ==> result == "" @C03
 
 //@ func (emitter).LineHeaderBlanks
